@@ -14,7 +14,7 @@ import driver
 DEFAULT = dict(Node="a,b,c", InitVoters="a,b,c", Value="x,y", MaxTerm="2", MaxLog="4", MaxTimer="5", MaxAE="2",
                MaxClient="1", MaxCrash="0", MaxHalf="0", MaxSnap="0", SnapSize="1", MaxRead="0", MaxCfg="0", AsyncKinds="", MaxNet="0",
                invariants="ElectionSafety,LogMatching,NoViolation,CommittedDurable", mode="bfs", timeout="600", depth="60", workers="8",
-               timed="0", E="3", L="1", D="1")
+               timed="0", E="3", L="1", D="1", module="MC_core3", keepdown="")
 
 # RaftTimed.tla wraps the asynchronous actions; the replay driver knows them by their untimed names
 TIMED_NAMES = {"TTimerFire": "TimerFireA", "TStartRound": "StartRound", "TClientSubmit": "ClientSubmit", "TRVHandle": "RVHandle",
@@ -41,7 +41,7 @@ def main():
     shutil.rmtree(d, ignore_errors=True)
     os.makedirs(d)
     timed = opt["timed"] == "1"
-    driver.stage_spec(d, ["Raft.tla", "MC_core3.tla", "RaftTimed.tla"])
+    driver.stage_spec(d, ["Raft.tla", "MC_core3.tla", "RaftTimed.tla", "Heal.tla"])
     setv = lambda v: "{" + ", ".join(x for x in v.split(",") if x) + "}"
     strset = lambda v: "{" + ", ".join('"%s"' % x for x in v.split(",") if x) + "}"
     cfg = "CONSTANTS\n  Node = %s\n  InitVoters = %s\n  Value = %s\n  Nil = Nil\n" % (setv(opt["Node"]), setv(opt["InitVoters"]), setv(opt["Value"]))
@@ -60,7 +60,7 @@ def main():
                                           "-dumpTrace", "json", os.path.join(d, "cex.json")]
     if opt["mode"] == "sim":
         cmd += ["-simulate", "-depth", opt["depth"]]
-    cmd += ["RaftTimed.tla" if timed else "MC_core3.tla"]
+    cmd += ["RaftTimed.tla" if timed else opt["module"] + ".tla"]
     t0 = time.time()
     try:
         r = subprocess.run(cmd, cwd=d, capture_output=True, text=True, timeout=int(opt["timeout"]))
@@ -129,7 +129,7 @@ def main():
         steps.append(st)
     voters = [x for x in opt["InitVoters"].split(",") if x]
     extra = [x for x in opt["Node"].split(",") if x and x not in voters]
-    sc = {"name": "atk-" + w, "family": family, "attack": w, "violates": m.group(1), "voters": voters, "extra": extra, "controlled": True, "auto": False,
+    sc = {"name": "atk-" + w + opt.get("suffix", ""), "family": family, **({"heal_keep_down": opt["keepdown"].split(",")} if opt["keepdown"] else {}), "attack": w, "violates": m.group(1), "voters": voters, "extra": extra, "controlled": True, "auto": False,
           "heal": True, "heal_et": 60, "spec": steps, **({"tick_ms": 1000, "et_ms": 1000 * int(opt["E"]), "lease_ms": 1000 * int(opt["L"])} if timed else {}),
           "comment": "TLC counterexample (%s, %s) of Raft.tla with W = {%s}; constants %s" % (opt["mode"], m.group(1), w,
                      {k: opt[k] for k in ("Node", "InitVoters", "MaxTerm", "MaxTimer", "MaxAE", "MaxCrash", "MaxHalf", "AsyncKinds") + (("E", "L", "D") if timed else ())})}
